@@ -567,6 +567,19 @@ impl Prop for C17 {
                 deliver(&mut rng, &mut case, bytes);
             }
         }
+        // global flags that must not matter for termination: verbosity, quiet, hidden --debug
+        if !case.args.is_empty() && rng.chance(1, 5) {
+            let flag = *rng.pick(&["-v", "-vv", "-q", "-qq", "--debug", "-vvv", "--quiet"]);
+            let at = rng.range(1, case.args.len());
+            // keep the flag in front of a trailing positional input
+            let at = at.min(case.args.iter().position(|a| a.starts_with("@DIR@")).unwrap_or(case.args.len()));
+            let at = if at > 0 && case.args[at - 1].starts_with('-') && !case.args[at - 1].starts_with("--mask") && case.args[at - 1] != "-n" && case.args[at - 1] != "-H" && case.args[at - 1] != "--strict" {
+                1
+            } else {
+                at
+            };
+            case.args.insert(at, flag.to_string());
+        }
         case
     }
 
